@@ -16,6 +16,7 @@ package redis
 
 import (
 	"errors"
+	"math"
 	"strconv"
 	"strings"
 	"time"
@@ -602,6 +603,9 @@ func (server *Server) registerCoreExecutors() {
 				opt.INCR = true
 			default:
 				score, err = strconv.ParseFloat(param, 64)
+				if err == nil && math.IsNaN(score) {
+					err = ErrNotFloat
+				}
 				isOption = false
 			}
 			if !isOption {
